@@ -212,6 +212,10 @@ class SetEncoder(encoder.SequenceEncoder):
             # bare Python value + ASN.1 schema
             for idx, namedType in enumerate(asn1Spec.componentType.namedTypes):
 
+                if ((namedType.isOptional or namedType.isDefaulted) and
+                        namedType.name not in value):
+                    continue
+
                 try:
                     component = value[namedType.name]
 
